@@ -1,12 +1,13 @@
 #!/bin/sh
 # usage: eval_seed.sh Cxx [srcdir-with-patch.diff-demo.py-meta.json]
-# Confirms a seeded change in a scratch worktree of /repo's HEAD (tests pass with it, the demonstration
+# Confirms a seeded change in a scratch worktree of /repo's HEAD (or of the commit in $SEED_BASE when the change was made
+# against an earlier HEAD and no longer applies) (tests pass with it, the demonstration
 # passes without and fails with it), runs the property's check against it and records the outcome.
 id="$1"; src="${2:-/tmp/seedout_$id}"
 wt="/tmp/ev_$id"; out="/verif/_work/seedeval/$id"
 mkdir -p "$out"; rm -f "$out"/*
 git -C /repo worktree remove --force "$wt" >/dev/null 2>&1; rm -rf "$wt"
-git -C /repo worktree add --detach "$wt" HEAD >/dev/null 2>&1 || { echo "$id worktree-failed"; exit 2; }
+git -C /repo worktree add --detach "$wt" "${SEED_BASE:-HEAD}" >/dev/null 2>&1 || { echo "$id worktree-failed"; exit 2; }
 cp /repo/src/yaw/_version.py "$wt/src/yaw/_version.py"
 run() { (cd "$wt" && PYTHONPATH="$wt/src" YAW_NUM_THREADS=1 PYTHONDONTWRITEBYTECODE=1 timeout 600 "$@"); }
 rund() { (cd "$wt" && PYTHONPATH="$wt/src" PYTHONDONTWRITEBYTECODE=1 timeout 600 "$@"); }
